@@ -222,7 +222,7 @@ def if_chain_containing(node, fn):
 def absent(r, idx, construct, detail, loc='', expected=None, found=None):
     """Report that an expected construct was NOT FOUND.  This is a definite break only when every newly extracted helper
     could be inlined (so the reviewed function was seen whole); otherwise the construct may have moved into a callee."""
-    if getattr(idx, 'unreviewed', None):
+    if idx is not None and getattr(idx, 'unreviewed', None):
         r.undecided(construct, detail + ' [not definite: unreviewed helper(s) %s could not be inlined and may contain it]'
                     % ', '.join(q.rsplit('.', 1)[-1] for q in idx.unreviewed[:3]), loc)
     else:
@@ -347,3 +347,103 @@ def unwrap_seq(seq):
         else:
             break
     return seq, start
+
+
+def always_exits(stmts):
+    for s in stmts:
+        if isinstance(s, (ast.Return, ast.Raise, ast.Break, ast.Continue)):
+            return True
+        if isinstance(s, ast.If) and s.orelse and always_exits(s.body) and always_exits(s.orelse):
+            return True
+    return False
+
+
+def reach_condition(stmt, fn):
+    """Conjuncts (canonical) under which `stmt` is reached inside its enclosing loop body / function body: polarity of the
+    enclosing ifs plus the complement of every earlier sibling `if` that always leaves (early return / raise / continue)."""
+    conj = []
+    child = stmt
+    for a in ancestors(stmt):
+        blocks = []
+        for field in ('body', 'orelse', 'finalbody'):
+            b = getattr(a, field, None)
+            if isinstance(b, list) and any(child is s for s in b):
+                blocks.append((field, b))
+        for field, b in blocks:
+            for s in b:
+                if s is child:
+                    break
+                if isinstance(s, ast.If):
+                    if always_exits(s.body) and not always_exits(s.orelse):
+                        conj.append(nf.negate(nf.canon(s.test)))
+                    elif s.orelse and always_exits(s.orelse) and not always_exits(s.body):
+                        conj.append(nf.canon(s.test))
+            if isinstance(a, ast.If):
+                conj.append(nf.canon(a.test) if field == 'body' else nf.negate(nf.canon(a.test)))
+        if a is fn or isinstance(a, (ast.For, ast.While, ast.FunctionDef)):
+            break
+        child = a
+    return conj
+
+
+def exists_view(cond, env, loop=None):
+    """See `cond` as "there is an element v of SEQ with P(v)": returns (SEQ, v, P canonical) or None.  Recognised: truthiness
+    of a filter comprehension (also under sorted/list/set/tuple/len), any(P for v in SEQ), not all(Q ...), next(gen, S) is not S,
+    set differences, and -- with `loop` given -- a test inside `for v in SEQ`."""
+    c = nf.canon(expand(cond, env))
+    if loop is not None and isinstance(loop, ast.For) and isinstance(loop.target, ast.Name):
+        return loop.iter, loop.target.id, c
+    neg = False
+    if isinstance(c, ast.UnaryOp) and isinstance(c.op, ast.Not):
+        c, neg = c.operand, True
+    # next((v for v in SEQ if P), S) is not S
+    if isinstance(c, ast.Compare) and len(c.ops) == 1 and isinstance(c.ops[0], (ast.IsNot, ast.Is)) and not neg:
+        for a, b in ((c.left, c.comparators[0]), (c.comparators[0], c.left)):
+            a2 = expand(a, env)
+            if isinstance(a2, ast.Call) and nf.callee_name(a2) == 'next' and len(a2.args) == 2 and nf.equal(a2.args[1], b) \
+                    and isinstance(a2.args[0], (ast.GeneratorExp, ast.ListComp)) and isinstance(c.ops[0], ast.IsNot):
+                comp = a2.args[0]
+                if len(comp.generators) == 1 and isinstance(comp.generators[0].target, ast.Name) and len(comp.generators[0].ifs) == 1:
+                    g = comp.generators[0]
+                    return g.iter, g.target.id, nf.canon(g.ifs[0])
+        return None
+    if isinstance(c, ast.Compare) and len(c.ops) == 1 and isinstance(c.ops[0], (ast.Lt, ast.NotEq)) and not neg:
+        # 0 < len(X)  /  len(X) != 0
+        for a, b in ((c.left, c.comparators[0]), (c.comparators[0], c.left)):
+            if nf.const_value(a, None) == 0 and isinstance(b, ast.Call) and nf.callee_name(b) == 'len' and len(b.args) == 1:
+                c = b.args[0]
+                break
+        else:
+            return None
+    while isinstance(c, ast.Call) and isinstance(c.func, ast.Name) and c.func.id in ('sorted', 'list', 'set', 'tuple', 'len', 'bool') \
+            and len(c.args) >= 1:
+        c = c.args[0]
+    if isinstance(c, ast.Call) and isinstance(c.func, ast.Name) and c.func.id in ('any', 'all') and len(c.args) == 1 \
+            and isinstance(c.args[0], (ast.GeneratorExp, ast.ListComp)) and len(c.args[0].generators) == 1 \
+            and isinstance(c.args[0].generators[0].target, ast.Name) and not c.args[0].generators[0].ifs:
+        g = c.args[0].generators[0]
+        elt = nf.canon(c.args[0].elt)
+        if c.func.id == 'any' and not neg:
+            return g.iter, g.target.id, elt
+        if c.func.id == 'all' and neg:
+            return g.iter, g.target.id, nf.negate(elt)
+        return None
+    if neg:
+        return None
+    if isinstance(c, (ast.ListComp, ast.GeneratorExp, ast.SetComp)) and len(c.generators) == 1 \
+            and isinstance(c.generators[0].target, ast.Name) and len(c.generators[0].ifs) == 1 and name_of(c.elt) == c.generators[0].target.id:
+        g = c.generators[0]
+        return g.iter, g.target.id, nf.canon(g.ifs[0])
+    # set(A) - set(B) / set(A).difference(B)
+    a = b = None
+    if isinstance(c, ast.BinOp) and isinstance(c.op, ast.Sub):
+        a, b = c.left, c.right
+    elif isinstance(c, ast.Call) and isinstance(c.func, ast.Attribute) and c.func.attr == 'difference' and len(c.args) == 1:
+        a, b = c.func.value, c.args[0]
+    if a is not None:
+        def unset(e):
+            return e.args[0] if isinstance(e, ast.Call) and nf.callee_name(e) in ('set', 'frozenset') and len(e.args) == 1 else e
+        a, b = unset(a), unset(b)
+        if isinstance(a, ast.Name) and isinstance(b, ast.Name):
+            return a, '_v', nf.canon(ast.Compare(left=ast.Name(id='_v', ctx=ast.Load()), ops=[ast.NotIn()], comparators=[b]))
+    return None
